@@ -26,6 +26,13 @@ func cond(obj, typ string) string {
 }
 
 func c14Rules(tier string) []Rule {
+	rules := c14RulesBase(tier)
+	rules = append(rules, errClassifier("C14.ERRC1", "InsufficientCapacityError", false)...)
+	rules = append(rules, errClassifier("C14.ERRC2", "NodeClassNotReadyError", false)...)
+	return rules
+}
+
+func c14RulesBase(tier string) []Rule {
 	const (
 		ctrl   = "(*life.Controller).Reconcile"
 		launch = "(*life.Launch).Reconcile"
